@@ -48,7 +48,9 @@ theorem facts_pinned :
     Facts.C04.checkSheetBoundsRows = true ∧
     Facts.C04.checkRowSizesByGreatest = true ∧
     Facts.C04.getMergeCellsInPlace = true ∧
-    Facts.C04.getRowsReturnsMaxRows = true := by decide
+    Facts.C04.getRowsReturnsMaxRows = true ∧
+    Facts.C04.r0RunningCol = true ∧
+    Facts.C04.r0KeepsRowAttrs = true := by decide
 
 /-- clause "every Get*, Rows, Cols, SearchSheet": the exported read functions of
 `*File` are exactly the ones the purity / no-panic oracle draws from; a new getter
@@ -109,7 +111,7 @@ the result (repaired defect: `GetRows` used to drop the row it was building and 
 theorem getRows_reports_row_limit (s : Sheet) (h : ∃ r ∈ s, r.r > Facts.TotalRows) :
     getRowsErr s = true := by
   have := foldl_rowStep_stopped s ⟨0, 0, ⟨0, []⟩, [], false⟩ (Or.inr h)
-  simp [getRowsErr, this, facts_pinned.2.2.2.2.2.2.2.2.2.2.2.2.2.2]
+  simp [getRowsErr, this, facts_pinned.2.2.2.2.2.2.2.2.2.2.2.2.2.2.1]
 
 /-- clause "GetCellValue agrees": on a cached worksheet (every row and cell carries
 its reference) the lookup of `getCellStringFunc`, including its `row > lastRowNum`
@@ -255,20 +257,42 @@ row 5 of an empty sheet turns visible after reading the style of A10. -/
 theorem regression_getCellStyle_materialised :
     rowVisible [] 5 = false ∧ rowVisible (prepareSheetXML [] 1 10) 5 = true := by decide
 
-/-! ## Known finding: rows without `r` whose cells mix referenced and unreferenced cells -/
+/-! ## Rows without `r` whose cells mix referenced and unreferenced cells (repaired) -/
 
 /-- the sheet `<row><c r="C1">x</c><c>y</c></row>` -/
 def rlessMixed : Sheet := [⟨0, false, [⟨3, 1, ['x'], false, false⟩, ⟨0, 0, ['y'], false, false⟩]⟩]
 
-/-- finding `purity:rows-after-load:rless-mixed`: the witness satisfies the reader
-invariant, yet caching the sheet (`checkSheetR0` places an unreferenced cell of a row
-without `r` at its *index*, the streaming readers at previous column + 1) changes what
-`GetRows` returns: `[["","","x","y"]]` before any getter ran, `[["","y","x"]]` after. -/
-theorem finding_rless_mixed :
+/-- repaired defect `purity:*-after-load:rless-mixed`: the witness satisfies the reader
+invariant, `GetRows` shows `["","",x,y]` on the file, and caching the sheet (`checkSheetR0` now
+places an unreferenced cell after the cell before it, as the streaming readers do) leaves
+`GetRows` and `SearchSheet` as they were and `GetCols` the same cell by cell. -/
+theorem rlessMixed_load_pure :
     WF rlessMixed ∧ getRows rlessMixed = [[[], [], ['x'], ['y']]] ∧
-    afterLoad rlessMixed (fun s' => getRows s' == [[[], ['y'], ['x']]]) = true := by
+    afterLoad rlessMixed (fun s' => getRows s' == getRows rlessMixed &&
+      (List.range 6).all (fun c => cellOfCols (getCols s') c 1 == cellOfCols (getCols rlessMixed) c 1) &&
+      (match searchSheet s' ['y'], searchSheet rlessMixed ['y'] with
+       | .ok a, .ok b => a == b
+       | _, _ => false)) = true := by
   refine ⟨?_, by decide, by decide⟩
   simp [WF, rlessMixed, RowsAsc, ColsAsc, effRow, effCol]
+
+/-- regression witness: with the old rule (an unreferenced cell of a row without `r` goes to
+its index) `y` lands in B1, the column the streaming readers never showed it in. -/
+theorem regression_rless_mixed_index_placement :
+    (match r0CellsAux false 1 0 0 [⟨3, 1, ['x'], false, false⟩, ⟨0, 0, ['y'], false, false⟩]
+        [⟨1, false, []⟩] with
+     | .ok [row] => row.cells.map (·.val) == [[], ['y'], ['x']]
+     | _ => false) = true ∧
+    (match r0CellsAux true 1 0 0 [⟨3, 1, ['x'], false, false⟩, ⟨0, 0, ['y'], false, false⟩]
+        [⟨1, false, []⟩] with
+     | .ok [row] => row.cells.map (·.val) == [[], [], ['x'], ['y']]
+     | _ => false) = true := by decide
+
+/-- repaired defect `purity:saved:rless-row-attrs-lost`: a hidden row without `r` is still
+hidden in the cached worksheet (`GetRowVisible` false, as `Rows().GetRowOpts()` said). -/
+theorem rless_hidden_kept :
+    afterLoad [⟨0, false, [⟨0, 0, ['a'], false, false⟩]⟩, ⟨0, true, [⟨0, 0, ['b'], false, false⟩]⟩]
+      (fun s' => rowVisible s' 1 && !rowVisible s' 2) = true := by decide
 
 /-- clause "read-only calls … leave the result of every later read unchanged", for the state
 change every first getter performs: caching a worksheet opened from a file (`checkSheet`,
@@ -280,8 +304,8 @@ and carries every reference, and every reader answers as before: `GetCellValue` 
 value the streaming readers showed, `GetRows` and `GetCols` agree cell by cell with their
 results before caching, and literal `SearchSheet` finds the same cells.
 Partial: the hypothesis `AllR s` (rows carry `r`) is explicit; for rows without `r` the
-statement is false in general (`finding_rless_mixed`) and open for the sub-class where
-unreferenced cells sit at their index (correspondence + `purity:*-after-load` oracle only). -/
+general statement is not proved (the `checkSheetR0` path; since its repair the correspondence
+and the `purity:*-after-load` oracle show no failure for any `WF` sheet, `rlessMixed_load_pure`). -/
 theorem load_pure_partial (s : Sheet) (h : WF s) (ha : AllR s) (hb : RowAttrsOK s)
     (hc : Consistent 0 s) (hg : InGrid 0 s) :
     ∃ s', load s = .ok s' ∧ WF s' ∧ Explicit s' ∧
